@@ -1,7 +1,7 @@
 """Texts for MANIFEST.json (kept next to props.py so the two stay consistent)."""
 
 ENGINES = [
-    {"name": "e1-vsched", "path": "/verif/engine/vsched", "serves_properties": ["C01", "C06", "C13", "C15"],
+    {"name": "e1-vsched", "path": "/verif/engine/vsched", "serves_properties": ["C01", "C06", "C13", "C15", "C17"],
      "kind_free_text": "controlled cooperative scheduler + AST instrumenter for lib/go; stateless DFS over choice sequences with deviation bounding and happens-before state-key pruning; explores the real code, no model"},
 ]
 
@@ -26,5 +26,9 @@ CHECKS = {
 CHECKS["C15"] = dict(engine="e1-vsched", design_ref="DESIGN.md §4 C15", technique="stateless model checking with fault injection (every cut offset x fault kind, reopen answers, user scripts; deviation-bounded DFS)",
     text="The real fAdapterTransport, monitorRunner and BaseFTransportMonitor over an in-memory stream: every byte offset at which a two-frame stream is cut x {EOF, I/O error, NOT_OPEN}, two failing sessions in a row, every reopen-answer pattern for policies MaxReopenAttempts 0..2, user scripts over Open/Close/IsOpen/Request racing the failure, write failures at every index; all schedules to the bound. Oracles on every end state: no thread parked forever in a lock or send, an open transport has a live reader, every watched session yields exactly one cause then a closed channel (nil only for clean closes), the monitor callback sequence equals a reference runner, lifecycle return codes equal a sequential reference.",
     note=E1_NOTE + " EOF inside a frame may be reported as clean or unclean (the statement does not settle it).")
+
+CHECKS["C17"] = dict(engine="e1-vsched", design_ref="DESIGN.md §4 C17", technique="stateless model checking of the implementation, unbounded with happens-before state pruning; brute-force linearizability oracle; exhaustive mutation sequences",
+    text="All interleavings (no bound) of 2-3 threads creating contexts by every route: op ids pairwise distinct and distinct from the received request's id. All interleavings of 2-3 threads running every operation pair and selected sequences on one shared FContext: the call/return history must be linearizable w.r.t. a three-map reference model (Clone = three reads within its interval), with returned maps and clones mutated afterwards to expose aliasing. Every mutation sequence of length 3-4 on original and clone after cloning (three routes), differential against reference maps.",
+    note=E1_NOTE + " Unsynchronised plain accesses (a removed lock) are invisible to a cooperative scheduler; they are looked for by the free-running -race pass.")
 
 NOT_APPLICABLE = {}
